@@ -66,6 +66,8 @@ fn hook_after(a: &Access, rd: u64, wr: u64, ok: bool) {
     let mut st = sh.m.lock().unwrap();
     let (o, of) = if a.kind == Kind::Cell { (5, 5) } else { (ord_code(a.ord), if a.kind == Kind::Cas { ord_code(a.ord_fail) } else { ord_code(a.ord) }) };
     st.log.push(Rec::Acc { tid: t, file: a.file, line: a.line, addr: a.addr, width: a.width, kind: a.kind, ord: o, ord_fail: of, rd, wr, ok });
+    drop(st);
+    stale_note(t, a, rd, wr, ok);
 }
 
 /// called by a harness thread when an API operation has returned
@@ -622,4 +624,79 @@ pub fn run_inline(body: Box<dyn FnOnce()>) -> Exec {
     if r.is_err() { st.log.push(Rec::Ret { tid: 0, code: u64::MAX }); }
     let log = std::mem::take(&mut st.log);
     Exec { log, choices: Vec::new(), enabled: Vec::new(), deadlock: false }
+}
+
+// ---------------------------------------------------------------------------------------
+// C03/C09/C12 addition (append-only): injection of stale values for the weak-memory
+// correspondence.  Memory stays sequentially consistent; what a LOAD or a FAILED
+// compare-exchange of a harness thread RETURNS may be replaced by an older value of that
+// location, never older than what the thread itself has already observed or written there
+// (per-location coherence).  Whether the stale value is also permitted by happens-before
+// across locations is decided by the view model in the driver, which discards executions
+// with an injection it does not allow.  Locations are selected by the source file of the
+// access (`stale_enable(.., file_suffixes)`), so that only the data structure under test is
+// affected.
+// ---------------------------------------------------------------------------------------
+struct StaleSt {
+    hist: std::collections::HashMap<usize, Vec<u64>>,
+    seen: std::collections::HashMap<(usize, usize), usize>,
+    rng: Rng,
+    percent: u64,
+    files: Vec<&'static str>,
+    injected: usize,
+}
+static STALE: Mutex<Option<StaleSt>> = Mutex::new(None);
+
+fn stale_applies(st: &StaleSt, a: &Access) -> bool {
+    a.kind != Kind::Cell && st.files.iter().any(|f| a.file.ends_with(f))
+}
+
+fn stale_note(t: usize, a: &Access, rd: u64, wr: u64, ok: bool) {
+    let mut g = STALE.lock().unwrap();
+    let Some(st) = g.as_mut() else { return };
+    if !stale_applies(st, a) { return; }
+    let writes = match a.kind {
+        Kind::Load | Kind::Cell => false,
+        Kind::Cas => ok,
+        _ => true,
+    };
+    let h = st.hist.entry(a.addr).or_insert_with(|| vec![if a.kind == Kind::Store { wr } else { rd }]);
+    if writes {
+        if a.kind != Kind::Store && *h.last().unwrap() != rd && h.len() == 1 { h[0] = rd; }
+        h.push(wr);
+        let last = h.len() - 1;
+        st.seen.insert((t, a.addr), last);
+    }
+}
+
+fn hook_override(a: &Access, real: u64, expected: u64, cas_fail: bool) -> u64 {
+    let Some(t) = TID.with(|c| c.get()) else { return real };
+    let mut g = STALE.lock().unwrap();
+    let Some(st) = g.as_mut() else { return real };
+    if !stale_applies(st, a) { return real; }
+    let h = st.hist.entry(a.addr).or_insert_with(|| vec![real]);
+    if *h.last().unwrap() != real { h.push(real); }     // a write this tracker did not see (ungated set-up code)
+    let last = h.len() - 1;
+    let lo = *st.seen.get(&(t, a.addr)).unwrap_or(&0);
+    let mut idx = last;
+    if lo < last && st.rng.below(100) < st.percent {
+        let cand: Vec<usize> = (lo..=last).filter(|&i| !cas_fail || h[i] != expected).collect();
+        if !cand.is_empty() { idx = cand[st.rng.below(cand.len() as u64) as usize]; }
+    }
+    if idx != last { st.injected += 1; }
+    let v = h[idx];
+    st.seen.insert((t, a.addr), idx);
+    v
+}
+
+/// Switch stale-value injection on for accesses whose source file ends with one of `files`
+/// (percent = probability per eligible access).  Call before `run_threads`; the state is per
+/// execution: call `stale_disable` (returns the number of injected stale values) afterwards.
+pub fn stale_enable(seed: u64, percent: u64, files: &[&'static str]) {
+    *STALE.lock().unwrap() = Some(StaleSt { hist: Default::default(), seen: Default::default(), rng: Rng(seed), percent, files: files.to_vec(), injected: 0 });
+    verif_gate::set_override_hook(hook_override);
+}
+pub fn stale_disable() -> usize {
+    verif_gate::clear_override_hook();
+    STALE.lock().unwrap().take().map(|s| s.injected).unwrap_or(0)
 }
